@@ -87,13 +87,18 @@ def effective_timeout(sp, t):
     """-1 means the instance default (C05)."""
     if isinstance(t, int) and not isinstance(t, bool) and t == -1:
         return sp.timeout
+    if is_sym(t):
+        import z3
+        z = z3.simplify(t)
+        if z3.is_int_value(z) and z.as_long() == -1:
+            return sp.timeout
     return t
 
 
 def param_domains(v):
     out = []
     t = v.a.timeout
-    if t is not None and not isinstance(t, int):
+    if t is not None and not isinstance(t, int) and not (is_sym(t) and str(t.sort()) == 'Int'):
         out.append(('timeout-not-sentinel', Not(eq(t, -1))))
     if v.a.has('searchwindowsize'):
         w = v.a.searchwindowsize
@@ -149,6 +154,10 @@ class ExpectList(Contract):
 
     def requires(self, v):
         return spawn_inv(v.a.self) + param_domains(v)
+
+    def instrument(self, args, g):
+        from .expect import ghost_clock
+        return ghost_clock('pexpect.expect', g)
 
     def outcomes(self, v):
         return expect_outcomes()
